@@ -1544,6 +1544,958 @@ def reserved_key_clause(fl):
     return bool(ok), where_r, stores, shapes, n_sites
 
 
+# ------------------------------------------------------------------------------------------------
+# R7: the recursive context holds what was attached.  The class that carries the recursive fields is small and
+# closed (constructor, copy, update): its methods are READ for model values (nothing of the repository is imported or
+# executed): the attached value is a token of which only "is it None" / "is it empty" is known, the fields of the
+# receiving context are opaque tokens, attribute dictionaries are written out.  Whatever way the new context is built
+# (patching the attribute dictionary of a copy, through the constructor with the fields spread in, a display, a
+# loop over the items), the clause is decided on what the returned object's fields hold.
+# ------------------------------------------------------------------------------------------------
+class _Sym:
+    """a value of which at most `none` (is it None) and `truth` are known; `src` = the token it is a copy of"""
+    def __init__(self, name, none=None, truth=None, src=None):
+        self.name, self.none, self.truth, self.src = name, none, truth, src
+
+    def root(self):
+        return self.src.root() if self.src is not None else self
+
+
+class _MObj:
+    """an instance of a class whose methods are read: `d` is its attribute dictionary"""
+    def __init__(self, ci):
+        self.ci, self.d = ci, {}
+
+
+class _MCls:
+    def __init__(self, ci):
+        self.ci = ci
+
+
+class _MBound:
+    def __init__(self, kind, recv, name):
+        self.kind, self.recv, self.name = kind, recv, name
+
+
+class _MMod:
+    """an imported module / an imported function, by dotted origin ('copy', 'copy:deepcopy')"""
+    def __init__(self, origin):
+        self.origin = origin
+
+
+class _MRaise(Exception):
+    """the path being read ends in an exception"""
+
+
+class _MReturn(Exception):
+    def __init__(self, value):
+        self.value = value
+
+
+class _MSuper:
+    def __init__(self, obj, after):
+        self.obj, self.after = obj, after
+
+
+def _mroot(v):
+    return v.root() if isinstance(v, _Sym) else v
+
+
+class ObjReader:
+    """One path through the methods of a small class, read on model values.  A test whose outcome is not known takes
+    the next entry of `choices` (True first when there is none): `explore` replays with every alternative."""
+
+    def __init__(self, ck, choices, what):
+        self.ck, self.repo = ck, ck.repo
+        self.choices, self.trace = list(choices), []
+        self.facts = {}      # id(root token) -> {"none": bool, "truth": bool} learnt on this path
+        self.alias = set()   # (id, id) of values this path has taken to be the same
+        self.what = what
+        self.depth = 0
+        self.steps = 0
+
+    # -- failing closed
+    def cant(self, node, why=""):
+        raise AnalysisError("%s: `%s` cannot be read for the values a recursive context holds%s" % (
+            self.what, A.short(node, 60) if isinstance(node, ast.AST) else node, (" (%s)" % why) if why else ""))
+
+    # -- facts
+    def _fact(self, v, what):
+        r = _mroot(v)
+        own = getattr(r, what)
+        if own is not None:
+            return own
+        return self.facts.get(id(r), {}).get(what)
+
+    def decide(self, v, what):
+        """the fact `what` ('none' / 'truth') about v on this path; forks when it is open"""
+        r = _mroot(v)
+        k = self._fact(v, what)
+        if k is None and what == "truth" and self._fact(v, "none") is True:
+            k = False
+        if k is None and what == "none" and self._fact(v, "truth") is True:
+            k = False
+        if k is not None:
+            return k
+        i = len(self.trace)
+        k = self.choices[i] if i < len(self.choices) else True
+        if what == "none" and k and self.facts.get(id(r), {}).get("truth") is True:
+            k = False
+        self.trace.append(k)
+        self.facts.setdefault(id(r), {})[what] = k
+        if what == "none" and k:
+            self.facts[id(r)]["truth"] = False
+        if what == "truth" and k:
+            self.facts[id(r)]["none"] = False
+        return k
+
+    def truth(self, v):
+        if isinstance(v, _Sym):
+            return self.decide(v, "truth")
+        if isinstance(v, (_MObj, _MCls, _MBound)):
+            return True
+        if isinstance(v, (dict, list, tuple, str, int, float, bool, type(None))):
+            return bool(v)
+        self.cant("truth of %r" % (v,))
+
+    def is_none(self, v):
+        if isinstance(v, _Sym):
+            return self.decide(v, "none")
+        return v is None
+
+    def denotes(self, got, v):
+        """does `got` hold the value v (v itself, a copy of it, or what this path has found to be the same)"""
+        if v is None:
+            return got is None or (isinstance(got, _Sym) and self._fact(got, "none") is True)
+        return _mroot(got) is v or (id(got), id(v)) in self.alias
+
+    def known_truth(self, v):
+        """the truth of v as far as this path knows it (never forks): True / False / None"""
+        if isinstance(v, _Sym):
+            k = self._fact(v, "truth")
+            return False if k is None and self._fact(v, "none") is True else k
+        if v is _UNKNOWN:
+            return None
+        return self.truth(v)
+
+    # -- classes
+    def class_default(self, ci, attr):
+        for c in self.repo.mro(ci):
+            for s in c.node.body:
+                tg = s.targets if isinstance(s, ast.Assign) else ([s.target] if isinstance(s, ast.AnnAssign) and s.value is not None else [])
+                for t in tg:
+                    if isinstance(t, ast.Name) and t.id == attr:
+                        if isinstance(s.value, ast.Constant):
+                            return s.value.value
+                        self.cant(s, "class attribute")
+        return _UNKNOWN
+
+    def method(self, ci, name, after=None):
+        mro = self.repo.mro(ci)
+        if after is not None:
+            mro = mro[[c.qual for c in mro].index(after.qual) + 1:]
+        for c in mro:
+            if name in c.methods:
+                return c.methods[name]
+        return None
+
+    def getattr_(self, o, attr, node):
+        if isinstance(o, _MObj):
+            if attr == "__dict__":
+                return o.d
+            if attr == "__class__":
+                return _MCls(o.ci)
+            if attr in o.d:
+                return o.d[attr]
+            m = self.method(o.ci, attr)
+            if m is not None:
+                if "property" in m.decorators:
+                    return self.call_fn(m, [o], {}, node)
+                return _MBound("method", o, m)
+            v = self.class_default(o.ci, attr)
+            if v is _UNKNOWN:
+                raise _MRaise()      # AttributeError
+            return v
+        if isinstance(o, dict) and attr in ("update", "copy", "items", "keys", "values", "get", "__setitem__", "pop", "setdefault", "__contains__"):
+            return _MBound("dict", o, attr)
+        if isinstance(o, _Sym) and attr in ("copy", "items", "keys", "values"):
+            return _MBound("sym", o, attr)
+        if isinstance(o, _MSuper):
+            if attr == "__setattr__":
+                return _MBound("rawset", o.obj, attr)
+            m = self.method(o.obj.ci, attr, after=o.after)
+            if m is None:
+                if attr == "__init__":
+                    return _MBound("noop", None, attr)
+                self.cant(node)
+            return _MBound("method", o.obj, m)
+        if isinstance(o, str) and attr == "format":
+            return _MBound("opaque", None, attr)
+        if isinstance(o, _MMod) and ":" not in o.origin:
+            return _MMod(o.origin + ":" + attr)
+        self.cant(node)
+
+    def setattr_(self, o, attr, v, node):
+        if not isinstance(o, _MObj):
+            self.cant(node)
+        m = self.method(o.ci, "__setattr__")
+        if m is not None:
+            self.call_fn(m, [o, attr, v], {}, node)
+            return
+        dc = self._dataclass(o.ci)
+        if dc is not None and dc[0]:
+            raise _MRaise()      # frozen
+        o.d[attr] = v
+
+    # -- calls
+    def call_fn(self, fi, args, kwargs, node):
+        self.depth += 1
+        if self.depth > 12:
+            self.cant(node, "recursion")
+        try:
+            a = fi.node.args
+            if a.posonlyargs:
+                self.cant(node)
+            names = [x.arg for x in a.args]
+            env = {}
+            if len(args) > len(names):
+                if a.vararg is None:
+                    raise _MRaise()
+                env[a.vararg.arg] = tuple(args[len(names):])
+                args = args[:len(names)]
+            elif a.vararg is not None:
+                env[a.vararg.arg] = ()
+            for n_, v in zip(names, args):
+                env[n_] = v
+            extra = {}
+            konly = [x.arg for x in a.kwonlyargs]
+            for k, v in kwargs.items():
+                if k in env and k in names:
+                    raise _MRaise()      # given twice
+                if k in names or k in konly:
+                    env[k] = v
+                elif a.kwarg is not None:
+                    extra[k] = v
+                else:
+                    raise _MRaise()      # unexpected keyword argument
+            if a.kwarg is not None:
+                env[a.kwarg.arg] = extra
+            defaults = dict(zip(names[len(names) - len(a.defaults):], a.defaults))
+            defaults.update({k: d for k, d in zip(konly, a.kw_defaults) if d is not None})
+            for n_ in names + konly:
+                if n_ not in env:
+                    if n_ not in defaults:
+                        raise _MRaise()
+                    env[n_] = self.ev(defaults[n_], {}, fi)
+            try:
+                self.block(fi.node.body, env, fi)
+            except _MReturn as r:
+                return r.value
+            return None
+        finally:
+            self.depth -= 1
+
+    def _dataclass(self, ci):
+        """None, or (frozen) when the class is a dataclass"""
+        for d in ci.node.decorator_list:
+            f = d.func if isinstance(d, ast.Call) else d
+            if A.norm(f) in ("dataclass", "dataclasses.dataclass"):
+                frozen = isinstance(d, ast.Call) and any(k.arg == "frozen" and isinstance(k.value, ast.Constant) and k.value.value for k in d.keywords)
+                return (bool(frozen),)
+        return None
+
+    def construct(self, ci, args, kwargs, node):
+        o = _MObj(ci)
+        m = self.method(ci, "__init__")
+        dc = self._dataclass(ci)
+        if m is not None and (dc is None or "__init__" in ci.methods):
+            self.call_fn(m, [o] + list(args), kwargs, node)
+            return o
+        if dc is not None:
+            # the constructor a dataclass is given: its annotated fields in order, with their defaults
+            if any(self._dataclass(c) is None and any(isinstance(s_, ast.AnnAssign) for s_ in c.node.body) for c in self.repo.mro(ci)[1:]):
+                self.cant(node, "dataclass with an annotated base")
+            names, defaults = [], {}
+            for s_ in ci.node.body:
+                if isinstance(s_, ast.AnnAssign) and isinstance(s_.target, ast.Name) and "ClassVar" not in A.norm(s_.annotation):
+                    names.append(s_.target.id)
+                    if s_.value is not None:
+                        if not isinstance(s_.value, ast.Constant):
+                            self.cant(s_, "field default")
+                        defaults[s_.target.id] = s_.value.value
+            if len(args) > len(names):
+                raise _MRaise()
+            given = dict(zip(names, args))
+            for k, v in kwargs.items():
+                if k in given or k not in names:
+                    raise _MRaise()
+                given[k] = v
+            for n_ in names:
+                if n_ not in given:
+                    if n_ not in defaults:
+                        raise _MRaise()
+                    given[n_] = defaults[n_]
+                o.d[n_] = given[n_]
+            pi = self.method(ci, "__post_init__")
+            if pi is not None:
+                self.call_fn(pi, [o], {}, node)
+            return o
+        if ci.node.decorator_list or any(c is not ci and self.method(c, "__new__") for c in self.repo.mro(ci)):
+            self.cant(node, "how the class is constructed")
+        if args or kwargs:
+            raise _MRaise()
+        return o
+
+    def copy_of(self, v, node):
+        if isinstance(v, dict):
+            return dict(v)
+        if isinstance(v, (list, tuple)):
+            return type(v)(v)
+        if isinstance(v, _Sym):
+            if self.is_none(v):
+                return None
+            return _Sym("copy of " + v.name, src=v)
+        if isinstance(v, _MObj):
+            m = self.method(v.ci, "__copy__")
+            if m is not None:
+                return self.call_fn(m, [v], {}, node)
+            o = _MObj(v.ci)
+            o.d = dict(v.d)
+            return o
+        if v is None or isinstance(v, (str, int, float, bool)):
+            return v
+        self.cant(node)
+
+    def mapping_of(self, v, node):
+        """the entries of v where it is spread / poured into a mapping"""
+        if isinstance(v, dict):
+            return v
+        if isinstance(v, _Sym):
+            if self.is_none(v):
+                raise _MRaise()
+        self.cant(node, "entries of a value that is not written out")
+
+    def call(self, e, env, fi):
+        f = e.func
+        args = []
+        for a in e.args:
+            if isinstance(a, ast.Starred):
+                v = self.ev(a.value, env, fi)
+                if not isinstance(v, (list, tuple)):
+                    self.cant(e)
+                args += list(v)
+            else:
+                args.append(self.ev(a, env, fi))
+        kwargs = {}
+        sym_spread = None
+        for k in e.keywords:
+            v = self.ev(k.value, env, fi)
+            if k.arg is None:
+                if isinstance(v, _Sym) and isinstance(f, ast.Name) and f.id == "dict" and not e.args and len(e.keywords) == 1:
+                    sym_spread = v
+                    continue
+                for k2, v2 in self.mapping_of(v, e).items():
+                    if not isinstance(k2, str):
+                        self.cant(e)
+                    if k2 in kwargs:
+                        raise _MRaise()
+                    kwargs[k2] = v2
+            else:
+                kwargs[k.arg] = v
+        if isinstance(f, ast.Name) and f.id not in env:
+            n = f.id
+            if n == "dict":
+                if sym_spread is not None:
+                    return self.copy_of(sym_spread, e) if not self.is_none(sym_spread) else self._raise()
+                if len(args) > 1:
+                    raise _MRaise()
+                if args and isinstance(args[0], _Sym):
+                    if kwargs:
+                        self.cant(e)
+                    if self.is_none(args[0]):
+                        raise _MRaise()
+                    return self.copy_of(args[0], e)
+                out = dict(self.mapping_of(args[0], e)) if args else {}
+                out.update(kwargs)
+                return out
+            if n == "vars" and len(args) == 1 and isinstance(args[0], _MObj):
+                return args[0].d
+            if n == "type" and len(args) == 1 and isinstance(args[0], _MObj):
+                return _MCls(args[0].ci)
+            if n == "cast" and len(e.args) == 2:
+                return args[1]
+            if n == "super" and not args and fi.cls is not None and "self" in env:
+                return _MSuper(env["self"], fi.cls)
+            if n == "bool" and len(args) == 1:
+                return self.truth(args[0])
+            if n == "len" and len(args) == 1 and isinstance(args[0], (dict, list, tuple, str)):
+                return len(args[0])
+            if n == "len" and len(args) == 1 and isinstance(args[0], _Sym):
+                if self.is_none(args[0]):
+                    raise _MRaise()
+                return 1 if self.truth(args[0]) else 0
+            if n == "isinstance" and len(args) == 2 and isinstance(args[0], _MObj) and isinstance(args[1], _MCls):
+                return any(c.qual == args[1].ci.qual for c in self.repo.mro(args[0].ci))
+            if n in ("list", "tuple") and len(args) == 1 and isinstance(args[0], (list, tuple)):
+                return (list if n == "list" else tuple)(args[0])
+            if n in ("repr", "str", "id", "hash"):
+                return _Sym(n + "(...)", none=False)
+            if n == "setattr" and len(args) == 3 and isinstance(args[1], str):
+                self.setattr_(args[0], args[1], args[2], e)
+                return None
+            if n == "getattr" and len(args) in (2, 3) and isinstance(args[1], str):
+                try:
+                    return self.getattr_(args[0], args[1], e)
+                except _MRaise:
+                    if len(args) == 3:
+                        return args[2]
+                    raise
+            if n == "hasattr" and len(args) == 2 and isinstance(args[1], str) and isinstance(args[0], _MObj):
+                try:
+                    self.getattr_(args[0], args[1], e)
+                    return True
+                except _MRaise:
+                    return False
+            ci = self._class_named(n, fi)
+            if ci is not None:
+                return self.construct(ci, args, kwargs, e)
+            if n not in fi.module.imports:
+                self.cant(e)
+        if A.norm(f) in ("object.__setattr__",) and len(args) == 3 and isinstance(args[0], _MObj) and isinstance(args[1], str):
+            args[0].d[args[1]] = args[2]
+            return None
+        fv = self.ev(f, env, fi)
+        if isinstance(fv, _MMod):
+            if fv.origin in ("copy:copy", "copy:deepcopy") and len(args) in (1, 2) and not kwargs:
+                return self.copy_of(args[0], e)
+            if fv.origin == "typing:cast" and len(args) == 2:
+                return args[1]
+            if fv.origin == "dataclasses:replace" and len(args) == 1 and isinstance(args[0], _MObj) and self._dataclass(args[0].ci) is not None:
+                return self.construct(args[0].ci, [], dict(args[0].d, **kwargs), e)
+            self.cant(e)
+        if isinstance(fv, _MCls):
+            return self.construct(fv.ci, args, kwargs, e)
+        if isinstance(fv, _MBound):
+            return self.bound(fv, args, kwargs, e)
+        self.cant(e)
+
+    def _raise(self):
+        raise _MRaise()
+
+    def _class_named(self, name, fi):
+        for ci in fi.module.all_classes():
+            if ci.name == name and ci.outer is None:
+                return ci
+        return None
+
+    def bound(self, b, args, kwargs, e):
+        if b.kind == "method":
+            return self.call_fn(b.name, [b.recv] + args, kwargs, e)
+        if b.kind == "noop":
+            return None
+        if b.kind == "opaque":
+            return _Sym("text", none=False)
+        if b.kind == "rawset":
+            if len(args) == 2 and isinstance(args[0], str):
+                b.recv.d[args[0]] = args[1]
+                return None
+            self.cant(e)
+        if b.kind == "sym":
+            if b.name == "copy" and not args:
+                if self.is_none(b.recv):
+                    raise _MRaise()
+                return self.copy_of(b.recv, e)
+            self.cant(e, "entries of a value that is not written out")
+        d = b.recv
+        n = b.name
+        if n == "update":
+            if len(args) > 1:
+                raise _MRaise()
+            if args:
+                d.update(self.mapping_of(args[0], e))
+            d.update(kwargs)
+            return None
+        if n == "copy" and not args:
+            return dict(d)
+        if n == "items" and not args:
+            return [(k, v) for k, v in d.items()]
+        if n == "keys" and not args:
+            return list(d.keys())
+        if n == "values" and not args:
+            return list(d.values())
+        if n == "__setitem__" and len(args) == 2 and isinstance(args[0], str):
+            d[args[0]] = args[1]
+            return None
+        if n == "__contains__" and len(args) == 1 and isinstance(args[0], str):
+            return args[0] in d
+        if n == "get" and len(args) in (1, 2) and isinstance(args[0], str):
+            return d.get(args[0], args[1] if len(args) == 2 else None)
+        if n == "pop" and len(args) in (1, 2) and isinstance(args[0], str):
+            if args[0] in d:
+                return d.pop(args[0])
+            if len(args) == 2:
+                return args[1]
+            raise _MRaise()
+        if n == "setdefault" and len(args) == 2 and isinstance(args[0], str):
+            return d.setdefault(args[0], args[1])
+        self.cant(e)
+
+    # -- expressions
+    def same(self, a, b, identity):
+        """a is b / a == b; None when it is not known"""
+        if a is None or b is None:
+            o = b if a is None else a
+            return self.is_none(o)
+        if isinstance(a, _Sym) or isinstance(b, _Sym):
+            if a is b:
+                return True
+            if _mroot(a) is _mroot(b) and (not identity or (id(_mroot(a)), id(_mroot(b))) in self.alias):
+                return True
+            if (id(a), id(b)) in self.alias:
+                return True
+            for w in ("none", "truth"):
+                fa_, fb_ = (self._fact(x, w) if isinstance(x, _Sym) else ((x is None) if w == "none" else None) for x in (a, b))
+                if fa_ is not None and fb_ is not None and fa_ != fb_:
+                    return False
+            i = len(self.trace)
+            k = self.choices[i] if i < len(self.choices) else True
+            self.trace.append(k)
+            if k:
+                self.alias |= {(id(a), id(b)), (id(b), id(a))}
+                for w in ("none", "truth"):     # what is known of one holds for the other
+                    for x, y in ((a, b), (b, a)):
+                        known = self._fact(x, w) if isinstance(x, _Sym) else ((x is None) if w == "none" else None)
+                        if known is not None and isinstance(y, _Sym) and self._fact(y, w) is None:
+                            self.facts.setdefault(id(_mroot(y)), {})[w] = known
+            return k
+        if isinstance(a, (_MObj, dict, list)) or isinstance(b, (_MObj, dict, list)):
+            return a is b if identity or isinstance(a, _MObj) or isinstance(b, _MObj) else a == b
+        return a == b if not identity else (a is b or (type(a) is type(b) and a == b))
+
+    def ev(self, e, env, fi):
+        self.steps += 1
+        if self.steps > 20000:
+            self.cant(e, "too long")
+        if isinstance(e, ast.Constant):
+            return e.value
+        if isinstance(e, ast.Name):
+            if e.id in env:
+                return env[e.id]
+            ci = self._class_named(e.id, fi)
+            if ci is not None:
+                return _MCls(ci)
+            if e.id in fi.module.imports:
+                return _MMod(fi.module.imports[e.id])
+            self.cant(e)
+        if isinstance(e, ast.NamedExpr) and isinstance(e.target, ast.Name):
+            env[e.target.id] = v = self.ev(e.value, env, fi)
+            return v
+        if isinstance(e, ast.Attribute):
+            return self.getattr_(self.ev(e.value, env, fi), e.attr, e)
+        if isinstance(e, ast.Call):
+            return self.call(e, env, fi)
+        if isinstance(e, ast.JoinedStr):
+            return _Sym("text", none=False, truth=True)
+        if isinstance(e, ast.UnaryOp) and isinstance(e.op, ast.Not):
+            return not self.truth(self.ev(e.operand, env, fi))
+        if isinstance(e, ast.BoolOp):
+            v = None
+            for x in e.values:
+                v = self.ev(x, env, fi)
+                if self.truth(v) != isinstance(e.op, ast.And):
+                    return v
+            return v
+        if isinstance(e, ast.IfExp):
+            return self.ev(e.body if self.truth(self.ev(e.test, env, fi)) else e.orelse, env, fi)
+        if isinstance(e, ast.Compare) and len(e.ops) == 1:
+            l, r = self.ev(e.left, env, fi), self.ev(e.comparators[0], env, fi)
+            op = e.ops[0]
+            if isinstance(op, (ast.Is, ast.IsNot, ast.Eq, ast.NotEq)):
+                s = self.same(l, r, isinstance(op, (ast.Is, ast.IsNot)))
+                return s if isinstance(op, (ast.Is, ast.Eq)) else not s
+            if isinstance(op, (ast.In, ast.NotIn)) and isinstance(r, (dict, list, tuple)) and isinstance(l, (str, int)):
+                return (l in r) if isinstance(op, ast.In) else (l not in r)
+            if isinstance(op, (ast.Gt, ast.GtE, ast.Lt, ast.LtE)) and isinstance(l, int) and isinstance(r, int):
+                return {ast.Gt: l > r, ast.GtE: l >= r, ast.Lt: l < r, ast.LtE: l <= r}[type(op)]
+            self.cant(e)
+        if isinstance(e, ast.Dict):
+            out = {}
+            for k, v in zip(e.keys, e.values):
+                if k is None:
+                    m = self.ev(v, env, fi)
+                    if isinstance(m, _Sym) and len(e.keys) == 1:
+                        if self.is_none(m):
+                            raise _MRaise()
+                        return self.copy_of(m, e)
+                    out.update(self.mapping_of(m, e))
+                else:
+                    kk = self.ev(k, env, fi)
+                    if not isinstance(kk, str):
+                        self.cant(e)
+                    out[kk] = self.ev(v, env, fi)
+            return out
+        if isinstance(e, ast.DictComp) and len(e.generators) == 1:
+            g = e.generators[0]
+            out = {}
+            for item in self.iterate(self.ev(g.iter, env, fi), e):
+                env2 = dict(env)
+                self.bind(g.target, item, env2, fi)
+                if all(self.truth(self.ev(c, env2, fi)) for c in g.ifs):
+                    kk = self.ev(e.key, env2, fi)
+                    if not isinstance(kk, str):
+                        self.cant(e)
+                    out[kk] = self.ev(e.value, env2, fi)
+            return out
+        if isinstance(e, (ast.Tuple, ast.List)) and not any(isinstance(x, ast.Starred) for x in e.elts):
+            v = [self.ev(x, env, fi) for x in e.elts]
+            return tuple(v) if isinstance(e, ast.Tuple) else v
+        if isinstance(e, ast.Subscript):
+            b, k = self.ev(e.value, env, fi), self.ev(e.slice, env, fi)
+            if isinstance(b, dict) and isinstance(k, str):
+                if k not in b:
+                    raise _MRaise()
+                return b[k]
+            if isinstance(b, (list, tuple)) and isinstance(k, int):
+                return b[k]
+            self.cant(e)
+        self.cant(e)
+
+    def iterate(self, v, node):
+        if isinstance(v, dict):
+            return list(v.keys())
+        if isinstance(v, (list, tuple)):
+            return list(v)
+        self.cant(node, "loop over a value that is not written out")
+
+    def bind(self, t, v, env, fi):
+        if isinstance(t, ast.Name):
+            env[t.id] = v
+        elif isinstance(t, (ast.Tuple, ast.List)) and isinstance(v, (tuple, list)) and len(v) == len(t.elts):
+            for t_, v_ in zip(t.elts, v):
+                self.bind(t_, v_, env, fi)
+        elif isinstance(t, ast.Subscript):
+            b, k = self.ev(t.value, env, fi), self.ev(t.slice, env, fi)
+            if not (isinstance(b, dict) and isinstance(k, str)):
+                self.cant(t)
+            b[k] = v
+        elif isinstance(t, ast.Attribute):
+            self.setattr_(self.ev(t.value, env, fi), t.attr, v, t)
+        else:
+            self.cant(t)
+
+    # -- statements
+    def block(self, body, env, fi):
+        for s in body:
+            self.stmt(s, env, fi)
+
+    def stmt(self, s, env, fi):
+        if isinstance(s, ast.Expr):
+            if isinstance(s.value, ast.Constant):
+                return
+            c = s.value
+            if isinstance(c, ast.Call) and isinstance(c.func, ast.Attribute) and A.root_name(c.func) in ("log", "logging", "logger", "warnings"):
+                return
+            self.ev(c, env, fi)
+        elif isinstance(s, ast.Assign):
+            v = self.ev(s.value, env, fi)
+            for t in s.targets:
+                self.bind(t, v, env, fi)
+        elif isinstance(s, ast.AnnAssign):
+            if s.value is not None:
+                self.bind(s.target, self.ev(s.value, env, fi), env, fi)
+        elif isinstance(s, ast.Return):
+            raise _MReturn(self.ev(s.value, env, fi) if s.value is not None else None)
+        elif isinstance(s, ast.Raise):
+            raise _MRaise()
+        elif isinstance(s, ast.Pass):
+            return
+        elif isinstance(s, ast.Import):
+            for a in s.names:
+                env[a.asname or a.name.split(".")[0]] = _MMod(a.name if a.asname else a.name.split(".")[0])
+        elif isinstance(s, ast.ImportFrom) and s.module and not s.level:
+            for a in s.names:
+                env[a.asname or a.name] = _MMod(s.module + ":" + a.name)
+        elif isinstance(s, ast.If):
+            self.block(s.body if self.truth(self.ev(s.test, env, fi)) else s.orelse, env, fi)
+        elif isinstance(s, ast.Assert):
+            if not self.truth(self.ev(s.test, env, fi)):
+                raise _MRaise()
+        elif isinstance(s, ast.For) and not s.orelse:
+            for item in self.iterate(self.ev(s.iter, env, fi), s):
+                self.bind(s.target, item, env, fi)
+                for x in s.body:
+                    if isinstance(x, (ast.Break, ast.Continue)) or any(isinstance(y, (ast.Break, ast.Continue)) for y in ast.walk(x)):
+                        self.cant(s)
+                    self.stmt(x, env, fi)
+        elif isinstance(s, ast.Delete):
+            for t in s.targets:
+                if isinstance(t, ast.Subscript):
+                    b, k = self.ev(t.value, env, fi), self.ev(t.slice, env, fi)
+                    if not (isinstance(b, dict) and isinstance(k, str)):
+                        self.cant(s)
+                    if k not in b:
+                        raise _MRaise()
+                    del b[k]
+                elif isinstance(t, ast.Name):
+                    env.pop(t.id, None)
+                else:
+                    self.cant(s)
+        else:
+            self.cant(s)
+
+
+def explore(ck, what, scenario, cap=256):
+    """every path of `scenario(reader)`: [(result or _RAISES, reader)]"""
+    out = []
+    pending = [[]]
+    while pending:
+        pre = pending.pop()
+        rd = ObjReader(ck, pre, what)
+        try:
+            r = scenario(rd)
+        except _MRaise:
+            r = _RAISES
+        out.append((r, rd))
+        for i in range(len(pre), len(rd.trace)):
+            pending.append(rd.trace[:i] + [not rd.trace[i]])
+        if len(out) > cap:
+            raise AnalysisError("%s: too many cases when the class is read for the values a recursive context holds" % what)
+    return out
+
+
+RC_Q = "context.RecursiveContext"
+
+
+def _describe(v, rd=None):
+    if v is None:
+        return "None"
+    if isinstance(v, _Sym):
+        return v.name
+    if isinstance(v, dict):
+        return "a mapping written in the class"
+    if isinstance(v, _MObj):
+        return "a %s" % v.ci.name
+    return repr(v)
+
+
+def context_holds_what_is_attached(ck, rule):
+    """R7.  Returns {'update': bool} (the verdict on update() for the replace clause of R2)."""
+    ci = ck.repo.cls(RC_Q)
+    upd = ck.repo.find_method(ci, "update")
+    init = ck.repo.find_method(ci, "__init__")
+    ck.need(upd is not None and init is not None, "RecursiveContext: update / __init__ not found")
+    ck.functions_analysed.add(upd.qual)
+    ck.functions_analysed.add(init.qual)
+    ufa, ifa = FA(ck, upd), FA(ck, init)
+    # the fields of a recursive context: what a default construction stores
+    base = explore(ck, RC_Q, lambda rd: rd.construct(ci, [], {}, ci.node))
+    fields = None
+    for r, _rd in base:
+        if r is not _RAISES:
+            fields = list(r.d) if fields is None else [f for f in fields if f in r.d]
+    ck.need(fields, "RecursiveContext: a default construction stores no field")
+    CA, PF = "context_args", "prevent_further_calls"
+
+    def attached(kind):
+        if kind == "none":
+            return None
+        return _Sym({"empty": "an empty context-args mapping ({})", "full": "the attached context args",
+                     "true": "True", "false": "False"}[kind], none=False, truth=kind in ("full", "true"))
+
+    def read(rd, o, f):
+        try:
+            return rd.getattr_(o, f, ci.node)
+        except _MRaise:
+            return _UNKNOWN
+
+    # (a) the constructor keeps what it is given
+    bad_c = []
+    for f, kinds in ((CA, ("none", "empty", "full")), (PF, ("true", "false"))):
+        for kind in kinds:
+            v = attached(kind)
+            runs = explore(ck, RC_Q, lambda rd: rd.construct(ci, [], {f: v}, ci.node))
+            fine = any(r is not _RAISES for r, _ in runs)
+            why = "the construction fails"
+            for r, rd in runs:
+                if r is _RAISES:
+                    continue
+                got = read(rd, r, f)
+                if f == PF:
+                    if rd.known_truth(got) is not (kind == "true"):
+                        fine, why = False, "the context holds %s" % _describe(got)
+                elif not rd.denotes(got, v):
+                    fine, why = False, "the context holds %s" % _describe(got)
+            if not fine:
+                bad_c.append((f, kind, _describe(v), why))
+    okc = not bad_c
+    ck.ob(rule, ifa.key(None, "constructor-keeps-what-it-is-given"), okc,
+          "a recursive context built with context args / the prevent flag holds exactly them (None, empty and non-empty kept apart)" if okc else
+          "RecursiveContext(%s=%s): %s - 'not set' (None) and 'set' (an empty mapping included) are no longer kept apart, so a call that attaches "
+          "that value is read as %s by memento_run_batch" % (bad_c[0][0], bad_c[0][2], bad_c[0][3],
+                                                            "one that inherits its caller's context args" if bad_c[0][1] != "none" else "one that has its own"),
+          ifa.where())
+
+    # (b) update(key, value) answers a new context that holds `value` under `key` and the receiver's values elsewhere
+    bad_u = []
+    for f, kinds in ((CA, ("none", "empty", "full")), (PF, ("true", "false"))):
+        for kind in kinds:
+            v = attached(kind)
+            olds = {g: _Sym("the receiver's " + g) for g in fields}
+
+            def scenario(rd, f=f, v=v, olds=olds):
+                me = _MObj(ci)
+                me.d = dict(olds)
+                return (me, rd.call_fn(upd, [me, f, v], {}, upd.node))
+            runs = explore(ck, RC_Q, scenario)
+            if not any(r is not _RAISES for r, _ in runs):
+                bad_u.append((f, _describe(v), "no context is answered"))
+                continue
+            for r, rd in runs:
+                if r is _RAISES:
+                    continue
+                me, new = r
+                if not isinstance(new, _MObj) or new is me:
+                    bad_u.append((f, _describe(v), "the receiver itself is answered (updated in place)" if new is me else "no new context is answered"))
+                    break
+                if me.d != olds:
+                    bad_u.append((f, _describe(v), "the receiver is changed"))
+                    break
+                got = read(rd, new, f)
+                if f == PF:
+                    good = rd.known_truth(got) is (kind == "true")
+                else:
+                    good = rd.denotes(got, v)
+                if not good:
+                    bad_u.append((f, _describe(v), "the new context holds %s under %s" % (_describe(got), f)))
+                    break
+                for g in fields:
+                    if g != f and _mroot(read(rd, new, g)) is not olds[g]:
+                        bad_u.append((f, _describe(v), "the new context holds %s under %s instead of the receiver's value" % (_describe(read(rd, new, g)), g)))
+                        break
+                else:
+                    continue
+                break
+    oku = not bad_u
+    ck.ob(rule, ufa.key(None, "update-holds-the-value"), oku,
+          "update(key, value) answers a new context that holds the value under the key (None, empty and non-empty kept apart) and the receiver's values elsewhere" if oku else
+          "RecursiveContext.update(%r, %s): %s - what with_context_args / with_prevent_further_calls attach is not what nested calls see "
+          "(an override that comes out as None is inherited from the caller instead of replacing it)" % bad_u[0],
+          ufa.where())
+    # (c) InvocationContext.update_recursive / update_local answer a new invocation context in which the addressed part holds the
+    # value and the other part is the receiver's (read the same way; where the class cannot be read the shape rule of R2 decides)
+    out = {"update": oku}
+    try:
+        out["scopes"] = _scope_updates_model(ck, ci, fields, attached, read)
+    except AnalysisError:
+        out["scopes"] = None
+    return out
+
+
+def _scope_updates_model(ck, rci, rfields, attached, read):
+    ici = ck.repo.cls("context.InvocationContext")
+    lci = ck.repo.cls("context.LocalContext")
+    CA = "context_args"
+    lbase = [r for r, _ in explore(ck, lci.qual, lambda rd: rd.construct(lci, [], {}, lci.node)) if r is not _RAISES]
+    if not lbase or not lbase[0].d:
+        raise AnalysisError("LocalContext: a default construction stores no field")
+    lfields = list(lbase[0].d)
+    verdict = {}
+    for meth, part, other, pci, pfields, key in (("update_recursive", "recursive", "local", rci, rfields, CA if CA in rfields else rfields[0]),
+                                                  ("update_local", "local", "recursive", lci, lfields, lfields[0])):
+        m = ck.repo.find_method(ici, meth)
+        if m is None:
+            raise AnalysisError("InvocationContext.%s not found" % meth)
+        ok = True
+        for kind in ("none", "empty", "full"):
+            v = attached(kind)
+
+            def scenario(rd, v=v):
+                me = _MObj(ici)
+                parts = {}
+                for nm_, c_, fs_ in (("recursive", rci, rfields), ("local", lci, lfields)):
+                    o = _MObj(c_)
+                    o.d = {g: _Sym("the receiver's %s.%s" % (nm_, g)) for g in fs_}
+                    parts[nm_] = o
+                me.d = dict(parts)
+                snap = {n_: dict(o.d) for n_, o in parts.items()}
+                return me, parts, snap, rd.call_fn(m, [me, key, v], {}, m.node)
+            runs = explore(ck, ici.qual, scenario)
+            if not any(r is not _RAISES for r, _ in runs):
+                ok = False
+            for r, rd in runs:
+                if r is _RAISES:
+                    continue
+                me, parts, snap, new = r
+                if not isinstance(new, _MObj) or new is me or new.ci is not ici or me.d != parts or any(parts[n_].d != snap[n_] for n_ in parts):
+                    ok = False
+                    continue
+                np_, no_ = read(rd, new, part), read(rd, new, other)
+                if not (isinstance(np_, _MObj) and np_.ci is pci and np_ is not parts[part] and rd.denotes(read(rd, np_, key), v)
+                        and all(read(rd, np_, g) is snap[part][g] for g in pfields if g != key)):
+                    ok = False
+                if not (isinstance(no_, _MObj) and (no_ is parts[other] or (no_.ci is parts[other].ci and no_.d == snap[other]))):
+                    ok = False
+        verdict[meth] = ok
+    return verdict
+
+
+def element_rows(target, it):
+    """The element variable of a loop / comprehension over the references, with the rows written out: `for ref in refs` ->
+    ('ref', refs, {}); `for a, b, c in ((ref.x, ref.y, ref.z) for ref in refs)` (a list comprehension / list display of the
+    rows alike) -> ('ref', refs, {'a': ref.x, 'b': ref.y, 'c': ref.z}).  None when it is neither."""
+    if isinstance(target, ast.Name):
+        return target.id, it, {}
+    if isinstance(target, (ast.Tuple, ast.List)) and all(isinstance(x, ast.Name) for x in target.elts):
+        inner = strip_cast(it)
+        if isinstance(inner, ast.Call) and isinstance(inner.func, ast.Name) and inner.func.id in ("list", "tuple", "iter") and len(inner.args) == 1 and not inner.keywords:
+            inner = inner.args[0]
+        if isinstance(inner, (ast.GeneratorExp, ast.ListComp)) and len(inner.generators) == 1 and not inner.generators[0].ifs \
+                and isinstance(inner.generators[0].target, ast.Name) and isinstance(inner.elt, (ast.Tuple, ast.List)) \
+                and len(inner.elt.elts) == len(target.elts) and not any(isinstance(x, ast.Starred) for x in inner.elt.elts):
+            names = [x.id for x in target.elts]
+            if len(set(names)) == len(names) and inner.generators[0].target.id not in names:
+                return inner.generators[0].target.id, inner.generators[0].iter, dict(zip(names, inner.elt.elts))
+    return None
+
+
+def subst_names(e, table):
+    """`e` with the names of `table` replaced by the expressions they stand for"""
+    if not table or e is None:
+        return e
+
+    class T(ast.NodeTransformer):
+        def visit_Name(self, n):
+            return copy.deepcopy(table[n.id]) if isinstance(n.ctx, ast.Load) and n.id in table else n
+    return ast.fix_missing_locations(T().visit(copy.deepcopy(e)))
+
+
+def _hands_on_its_argument(ck, f, value, field):
+    """is `value` (an expression of modifier `f`, locals written out) the modifier's argument for every kind of argument: None,
+    an empty and a non-empty mapping as themselves or copied (context args); true / false with the same truth (the prevent flag)"""
+    params = f.fi.params[1:]
+    if value is None or not params:
+        return False
+    kinds = (("none", None, None), ("empty", False, False), ("full", False, True)) if field == "context_args" else (("true", False, True), ("false", False, False))
+    try:
+        for p_ in params:
+            fine = True
+            for kind, none, truth in kinds:
+                v = None if kind == "none" else _Sym("the argument", none=none, truth=truth)
+                runs = explore(ck, f.qual, lambda rd: rd.ev(value, {q: (v if q == p_ else _Sym("another argument")) for q in params}, f.fi))
+                for r, rd in runs:
+                    if r is _RAISES:
+                        fine = False
+                    elif field == "context_args":
+                        fine = fine and rd.denotes(r, v)
+                    else:
+                        fine = fine and rd.known_truth(r) is truth
+            if fine:
+                return True
+    except AnalysisError:
+        return False
+    return False
+
+
 def check(ck):
     from .memo import check_new_memo_tables
     ck.run(check_new_memo_tables, ck, "C16.M1", ('reference', 'base', 'runner_local', 'call_stack', 'context'))
@@ -1556,6 +2508,10 @@ def check(ck):
                 "with_prevent_further_calls clone with the updated context", 4)
     ck.rule(R4, "the prevent_further_calls raise dominates the dispatch to the runner", 1)
     ck.rule(R5, "sibling agreement: every keyed reference construction in base.py passes self.context.recursive.context_args", 6)
+    R7 = "C16.R7"
+    ck.rule(R7, "the recursive context holds what was attached: through RecursiveContext's constructor, copy and update 'not set' (None) "
+                "and 'set' (an empty mapping included) stay apart, the other fields keep the receiver's values, the receiver is not changed", 2)
+    held = ck.run(context_holds_what_is_attached, ck, R7)
 
     # ---- R1: decided on the constructor with its private helpers flattened in
     fl = FlatInit(ck)
@@ -1710,18 +2666,19 @@ def check(ck):
         at = rb.nodes(c)[0]
         par = rb.pm.get(c)
         cv = src = None
+        rows = {}
         made, heads = [], []
         through = []      # nodes every inheriting path must pass: where the list is rebuilt
         holders = set()   # (node, name) definitions that hold the rebuilt list
         if isinstance(par, (ast.ListComp, ast.GeneratorExp)) and par.elt is c and len(par.generators) == 1 and not par.generators[0].ifs \
-                and isinstance(par.generators[0].target, ast.Name):
+                and element_rows(par.generators[0].target, par.generators[0].iter) is not None:
             outer = par
             if isinstance(par, ast.GeneratorExp):
                 pp = rb.pm.get(par)
                 outer = pp if isinstance(pp, ast.Call) and A.call_attr(pp) == "list" and pp.args == [par] else None
             st = rb.stmt_of(c)
             if outer is not None and isinstance(st, ast.Assign) and st.value is outer and len(st.targets) == 1 and isinstance(st.targets[0], ast.Name):
-                cv, src = par.generators[0].target.id, par.generators[0].iter
+                cv, src, rows = element_rows(par.generators[0].target, par.generators[0].iter)
                 through = rb.nodes(st)
                 holders = {(i, st.targets[0].id) for i in rb.nodes(st)}
                 made = [d_ for i in rb.nodes(st) for d_ in rb.df.gen.get(i, []) if d_.name == st.targets[0].id]
@@ -1729,13 +2686,13 @@ def check(ck):
         elif isinstance(par, ast.Call) and A.call_attr(par) == "append" and par.args == [c] and isinstance(A.call_recv(par), ast.Name):
             st = rb.stmt_of(c)
             loop = rb.enclosing(st, (ast.For, ast.While))
-            if isinstance(loop, ast.For) and isinstance(loop.target, ast.Name) and not loop.orelse and A.sig_stmts(loop.body) == [st] \
+            if isinstance(loop, ast.For) and element_rows(loop.target, loop.iter) is not None and not loop.orelse and A.sig_stmts(loop.body) == [st] \
                     and isinstance(st, ast.Expr) and st.value is par:
                 lname = A.call_recv(par).id
                 heads = [n.id for n in rb.cfg.nodes if n.kind == "for" and n.ast is loop]
                 ld = single_def(rb, lname, heads[0]) if heads else None
                 if ld is not None and A.norm(ld.value) in ("[]", "list()"):
-                    cv, src = loop.target.id, loop.iter
+                    cv, src, rows = element_rows(loop.target, loop.iter)
                     through = heads
                     holders = {(ld.node, lname)}
                     made = [ld]
@@ -1748,7 +2705,7 @@ def check(ck):
         ok3 = cv is not None and isinstance(src, ast.Name) and src.id == P_REFS and all(d.kind == "param" for d in rb.df.reaching(through[0], P_REFS))
         if ok3:
             a = [A.arg_or_kw(c, i, n) for i, n in enumerate(("fn_reference", "args", "kwargs", "context_args"))]
-            ok3 = all(x is not None for x in a) and [A.norm(x) for x in a[:3]] == [cv + ".fn_reference", cv + ".args", cv + ".kwargs"] \
+            ok3 = all(x is not None for x in a) and [A.norm(subst_names(x, rows)) for x in a[:3]] == [cv + ".fn_reference", cv + ".args", cv + ".kwargs"] \
                 and is_inherited(a[3], at)
         # built after the update, on every inheriting path, and it is what is dispatched
         _same = []
@@ -1902,8 +2859,12 @@ def check(ck):
             oku = copied and bool(rets) and all(r.value is not None and same_def(origin(ru, r.value, ru.nodes(r)[0]), obj) for r in rets if ru.nodes(r))
     if not sets:
         # entries handed over as `**<a mapping built at run time>`: which entry is set is not written in the call
+        # (the class read for the values it holds decides what the answered context holds then: R7)
         spread = [c for c in ru.calls() if any(k.arg is None for k in c.keywords) and ru.nodes(c)]
-        ck.need(not spread, "RecursiveContext.update: an entry is set through the ** of a computed mapping (`%s`)" % (A.short(spread[0], 60) if spread else ""))
+        if spread and held is not None:
+            oku = held["update"]
+        else:
+            ck.need(not spread, "RecursiveContext.update: an entry is set through the ** of a computed mapping (`%s`)" % (A.short(spread[0], 60) if spread else ""))
     ck.ob(R2, ru.key(None, "replace"), oku, "update() replaces the field on a copy" if oku else
           "RecursiveContext.update no longer sets result[key] = value on a copy", ru.where())
 
@@ -1918,6 +2879,9 @@ def check(ck):
             if not (isinstance(e, ast.Call) and A.norm(e.func) in ("InvocationContext", "type(self)", "self.__class__")):
                 return False
             # (the two parts handed over as `**<a mapping built at run time>`: not written in the call, no verdict)
+            if (any(k.arg is None for k in e.keywords) or any(isinstance(a_, ast.Starred) for a_ in e.args)) and held is not None and held.get("scopes"):
+                # read for the values the two parts hold (R7 (c))
+                return bool(held["scopes"].get(f.fi.node.name))
             ck.need(not any(k.arg is None for k in e.keywords) and not any(isinstance(a_, ast.Starred) for a_ in e.args),
                     "%s: the new context is built from the */** of a computed collection (`%s`)" % (f.qual, A.short(e, 60)))
             a0, a1 = A.arg_or_kw(e, 0, "recursive"), A.arg_or_kw(e, 1, "local")
@@ -1963,7 +2927,7 @@ def check(ck):
                     e = ast.Call(func=ast.Attribute(value=ast.parse("self.context", mode="eval").body, attr="update_recursive", ctx=ast.Load()),
                                  args=list(r0.args), keywords=list(r0.keywords))
             okw = isinstance(e, ast.Call) and A.call_attr(e) == "update_recursive" and A.norm(A.call_recv(e)) == "self.context" \
-                and A.const_str(A.arg_or_kw(e, 0, "key")) == field and A.norm(strip_cast(A.arg_or_kw(e, 1, "value"))) in f.fi.params[1:] \
+                and A.const_str(A.arg_or_kw(e, 0, "key")) == field and (A.norm(strip_cast(A.arg_or_kw(e, 1, "value"))) in f.fi.params[1:] or _hands_on_its_argument(ck, f, A.arg_or_kw(e, 1, "value"), field)) \
                 and len([c for c in f.calls("update_recursive") if A.const_str(A.arg_or_kw(c, 0, "key")) == field]) <= 1
             # and the clone is what the modifier returns
             okw = okw and any(r.value is not None and "call:clone_with" in f.deps(r.value) for r in f.returns() if f.nodes(r))
